@@ -228,4 +228,77 @@ example :
       [.list 2 true (some 1) [⟨0, 0⟩, ⟨1, 99⟩, ⟨0, 7⟩, ⟨1, 99⟩], .plain 0 5]) [0, 2]
       = .inr [.list [5], .list [0, 7]] := by decide
 
+/-! ### the rule level: rule modifiers and the root wrapper of `visit_textx_rule` -/
+
+/-- **Rule modifiers change nothing.**  Whatever the body is and whether or not the rule
+carries modifiers (`[skipws]`, `[noskipws]`, `[ws=…]`, `[split=…]`), the root parsing
+expression `visit_textx_rule` builds (the body itself, or the one-element sequence
+wrapped around a lone assignment / around a non-sequence body of a rule with modifiers)
+gets the same inference result, has the same counts and the same traces as the body. -/
+theorem C02_rule_root (r : Rule) :
+    infer r.root = infer r.body ∧ (∀ a, count a r.root = count a r.body) ∧
+    ∀ t : List (Ev V), Events r.root t ↔ Events r.body t := by
+  unfold Rule.root
+  split
+  · refine ⟨?_, ?_, ?_⟩
+    · simp [infer, asgns, asgnsL, walk, walkSeq]
+    · intro a
+      simp only [count, countSum]
+      cases count a r.body <;> rfl
+    · intro t
+      simp [Events, EventsSeq]
+  · exact ⟨rfl, fun _ => rfl, fun _ => Iff.rfl⟩
+
+/-- **Static half for rules.**  With or without rule modifiers, an attribute of the rule's
+class is a list exactly when the count over the rule body is "many" — equivalently
+(`C02_list_iff_collect`) when some parse of the body collects two values for it. -/
+theorem C02_rule_list_iff (r : Rule) (a : Attr) :
+    isList r.root a = true ↔ count a r.body = .many := by
+  rw [C02_list_iff, (C02_rule_root (V := Unit) r).2.1]
+
+theorem C02_rule_list_iff_collect [Inhabited V] (r : Rule) (hwf : r.body.wf = true) (a : Attr) :
+    isList r.root a = true ↔ ∃ t : List (Ev V), Events r.body t ∧ 2 ≤ nvals a t := by
+  rw [C02_rule_list_iff]
+  exact (C02_list_iff r.body a).symm.trans (C02_list_iff_collect (V := V) r.body hwf a)
+
+/-- **Dynamic half for rules.**  The object of a rule (with or without modifiers) whose
+grammar is accepted is built from any trace of the rule *body* without an error, and
+after every prefix holds exactly the values matched so far (as `C02_store_raw`), under
+the multiplicities inferred from the rule's root expression. -/
+theorem C02_rule_store_raw (truthy : V → Bool) (r : Rule) (hacc : accepted r.root = true)
+    (dflt : Attr → Slot V) (hd : ∀ a, Falsy truthy (dflt a))
+    (t : List (Raw V)) (ht : Events r.body (t.map Raw.ev)) (t1 t2 : List (Raw V)) (hsplit : t = t1 ++ t2) :
+    ∃ h, storeRaw truthy (initHeap (multOf r.root) dflt) t1 = .ok h ∧
+      Stored (multOf r.root) dflt (t1.map Raw.ev) h :=
+  C02_store_raw truthy r.root hacc dflt hd t (((C02_rule_root r).2.2 _).mpr ht) t1 t2 hsplit
+
+/-- `Nums[skipws]: ('n' a=INT)+;` — the body of a rule with modifiers that is one repetition -/
+def modWitness : Rule := ⟨true, .rep true (.seq [.leaf, .asgn 0 .plain])⟩
+
+/-- Skipping the walk for a one-element root sequence ("the wrapper of a lone assignment")
+is wrong: the same wrapper is made for a rule with modifiers whose body is one repetition
+(or optional / unordered group).  `a` then stays single-valued although it can collect many
+values; `n 1 n 2` raises "Multiple assignments" and on `n 0 n 7` the `0` is overwritten.
+The code (which walks every root) infers a list. -/
+theorem C02_skip_single_root_false :
+    modWitness.root = .seq [modWitness.body] ∧
+    ((inferSkipSingle modWitness.root).mult 0).isMany = false ∧ count 0 modWitness.body = .many ∧
+    isList modWitness.root 0 = true ∧
+    Events modWitness.body [Ev.plain 0 1, Ev.plain 0 2] ∧
+    peek (store truthyNat (initHeap (inferSkipSingle modWitness.root).mult (fun _ => Slot.scalar 0))
+      [Ev.plain 0 1, Ev.plain 0 2]) [0] = .inl .multAssign ∧
+    peek (store truthyNat (initHeap (inferSkipSingle modWitness.root).mult (fun _ => Slot.scalar 0))
+      [Ev.plain 0 0, Ev.plain 0 7]) [0] = .inr [Slot.scalar 7] ∧
+    peek (store truthyNat (initHeap (multOf modWitness.root) (fun _ => Slot.scalar 0))
+      [Ev.plain 0 0, Ev.plain 0 7]) [0] = .inr [Slot.list [0, 7]] := by
+  refine ⟨rfl, by decide, by decide, by decide, (C02_accepts_iff _ _).mp (by decide),
+    by decide, by decide, by decide⟩
+
+/-- the wrapper is also made for a lone assignment and never for a sequence or choice body -/
+example : (Rule.mk false (.asgn 0 .plain)).root = .seq [.asgn 0 .plain] ∧
+    (Rule.mk true (.unordered [.asgn 0 .plain, .asgn 0 .plain])).root
+      = .seq [.unordered [.asgn 0 .plain, .asgn 0 .plain]] ∧
+    (Rule.mk true (.choice [.asgn 0 .plain, .asgn 1 .plain])).root = .choice [.asgn 0 .plain, .asgn 1 .plain] ∧
+    (Rule.mk false (.rep true (.asgn 0 .plain))).root = .rep true (.asgn 0 .plain) := ⟨rfl, rfl, rfl, rfl⟩
+
 end Mult
